@@ -20,7 +20,7 @@ Section AbfSystem.
 
   Definition wire_abf (i : abf_sys_in) (os : list (r_out T)) : abf_in_t (T:=T) :=
     let xs := fst (fst (fst i)) in
-    abf_input xs (snd (fst (fst i))) (map (other_force os) (seq 0 (length xs))) (snd (fst i)) (snd i).
+    abf_input O xs (snd (fst (fst i))) (map (other_force os) (seq 0 (length xs))) (snd (fst i)) (snd i).
 
   (* the restraints' input is the list of values *)
   Definition abf_sys_machine' :=
